@@ -68,6 +68,9 @@ func (u *controlUnit) cycle(cycle int) {
 	if u.msi.staleState {
 		u.msiStatesCopy = u.msi.copyState()
 		u.msi.staleState = false
+		// A cycle passes: what was pushed before it is no longer "pushed in the
+		// previous cycle" and must not be picked as a forwarding source
+		u.pushedRunnersInPreviousCycle = make(map[*risc.InstructionRunnerPc]bool)
 		// Return to simulate that it takes a cycle to sync the MSI state
 		return
 	}
